@@ -6,7 +6,7 @@ import hashlib
 import hmac as _hmac
 
 PID = "C16"
-READY = False
+READY = True
 MANIFEST = {
     "level_text": "Lean 4 theorems about a model of Message.cpp's decode/decode_signed in which every pointer access and span cut of the C++ is a checked read whose failure is an explicit `oob` outcome: for every byte string, key and MAC function neither decoder (nor the inner parsers on any span) ever yields `oob` (total, total_inner; the functions are plain total definitions, so termination is by construction), and whenever decode accepts, encode of the result is a prefix of the input (reencode_prefix, prefix_signed); the size_t sums formed from 32-bit length fields stay below 2^64 (sizes_fit), so the Nat arithmetic of the model is the code's on LP64. Tied to the code by regenerated constants and by a differential run of the real decoders, in exactly-sized heap buffers under ASan+UBSan, against the compiled model on a malformed stream (all truncations, single-bit flips, extensions, length fields near 2^32, flag/version/type bytes 0..255, random bytes), with the Lean specification checking the prefix law on the implementation's own re-encoding.",
     "level_note": 'Partial in one respect: memory safety and absence of UB of the real binary are observed by ASan/UBSan on the generated inputs and proved only for the model; std::bad_alloc from vector/string growth is outside the model. Trusted: Lean kernel, the hand transcription (validated by the differential run), LP64. Holds on the tree with fixes/C16-canonical-flag-byte.patch and fixes/C15-announce-nonce-v3.patch (unrepaired, flag bytes >= 2 break the prefix law; reported with a replay).',
